@@ -36,6 +36,10 @@ type Delivery struct {
 	Wait    bool   `json:"wait,omitempty"`
 	Key     int    `json:"key,omitempty"`
 	Limit   int    `json:"limit,omitempty"` // restart: Load(limit) instead of Load(-1) when > 0 (the older part arrives by replication later)
+	// FailHeads (delivery routes): the write of the merged heads to the replica's storage fails once while this
+	// delivery is merged (simulated I/O error); what the replica then shows must still be the state of the
+	// entries it holds
+	FailHeads bool `json:"fail_heads,omitempty"`
 }
 
 type PlanC01 struct {
@@ -93,6 +97,9 @@ func genC01(rt *rapid.T) CaseC01 {
 				d.Entries = rapid.SliceOfN(rapid.IntRange(0, 200), 1, 4).Draw(rt, "entries")
 				d.Dup = rapid.IntRange(0, 2).Draw(rt, "dup")
 				d.Wait = rapid.Bool().Draw(rt, "wait")
+				if rapid.IntRange(0, 5).Draw(rt, "failHeads") == 0 {
+					d.FailHeads, d.Wait = true, true
+				}
 			case "write":
 				d.Key = rapid.IntRange(0, 3).Draw(rt, "key")
 			case "restart":
@@ -271,6 +278,9 @@ func execC01(c CaseC01) *Outcome {
 				if err != nil {
 					return fail("harness: %v", err)
 				}
+				if d.FailHeads {
+					p.Disk.FailPuts("_remoteHeads", 1)
+				}
 				for rep := 0; rep <= d.Dup; rep++ {
 					route := d.Route
 					if route == "loadmore" && plan.Gated {
@@ -310,6 +320,18 @@ func execC01(c CaseC01) *Outcome {
 				if d.Wait && !settle() {
 					o.Inconclusive = true
 					return o
+				}
+				if d.FailHeads {
+					if p.Disk.PendingPutFaults() == 0 {
+						o.Labels = append(o.Labels, "heads-write-failed-during-merge")
+					}
+					p.Disk.ClearPutFaults()
+				}
+				if d.Wait {
+					// at rest: what the replica shows is the state of exactly the entries it holds
+					if out := viewIsReplay(s, c.Type, fmt.Sprintf("observer %d step %d (%s, at rest)", oi, si, d.Route)); out != nil {
+						return out
+					}
 				}
 			case "write":
 				// the observer is an authorised writer too
@@ -581,6 +603,22 @@ func execC01(c CaseC01) *Outcome {
 		o.Labels = append(o.Labels, "route:"+r)
 	}
 	return o
+}
+
+// viewIsReplay: the view the store shows equals the fold of the entries its log holds.
+func viewIsReplay(s iface.Store, typ, where string) *Outcome {
+	want, err := replayOfLog(s, typ)
+	if err != nil {
+		return fail("%s: harness: %v", where, err)
+	}
+	got, err := viewOf(s, typ)
+	if err != nil {
+		return fail("%s: reading the view failed: %v", where, err)
+	}
+	if !eqStrings(got, want) {
+		return fail("%s: the replica holds %d entries whose state is %v, it shows %v", where, s.OpLog().Len(), want, got)
+	}
+	return nil
 }
 
 func TestC01(t *testing.T) { runCheck(t, "C01", genC01, execC01) }
